@@ -267,6 +267,10 @@ class R:
             return e["value"]
         if k == "UnaryOperator":
             op = e["opcode"]
+            if op == "&":
+                sub = strip(e["inner"][0])
+                if sub.get("kind") == "ArraySubscriptExpr" and const_eval(sub["inner"][1], self.enums) == 0:
+                    return self(sub["inner"][0])      # canonical pointer form: &X[0] is X
             x = self(e["inner"][0])
             if e.get("isPostfix"):
                 return "(%s%s)" % (x, op)
@@ -276,6 +280,15 @@ class R:
             if op == "*":
                 return "(*%s)" % x
             return "%s%s" % (op, x)
+        if k == "BinaryOperator" and e.get("opcode") == "+" and "*" in e.get("type", {}).get("qualType", ""):
+            # canonical pointer form: X + n is &X[n] (X + 0 is X)
+            a, b = e["inner"][0], e["inner"][1]
+            ta = strip(a).get("type", {}).get("qualType", "")
+            if "*" not in ta and "[" not in ta:
+                a, b = b, a
+            if const_eval(b, self.enums) == 0:
+                return self(a)
+            return "&%s[%s]" % (self(a), self(b))
         if k in ("BinaryOperator", "CompoundAssignOperator"):
             return "(%s %s %s)" % (self(e["inner"][0]), e["opcode"], self(e["inner"][1]))
         if k == "ArraySubscriptExpr":
@@ -304,6 +317,119 @@ class R:
         if k == "InitListExpr":
             return "{…}"
         return "<%s>" % k
+
+
+def inline_expr_helpers(node, prog, cur, depth):
+    """calls of glue functions the rules do not know (not in CVOCAB) whose whole body is `return <expr>;`
+    (accessors, small predicates) are replaced by that expression with the arguments substituted"""
+    try:
+        from cvocab import CVOCAB
+    except Exception:
+        return node
+    if isinstance(node, list):
+        return [inline_expr_helpers(c, prog, cur, depth) for c in node]
+    if not isinstance(node, dict):
+        return node
+    new = {k: (inline_expr_helpers(v, prog, cur, depth) if k == "inner" else v) for k, v in node.items()}
+    if new.get("kind") == "CallExpr" and depth < 3:
+        cn = callee_name(new)
+        if cn and cn not in CVOCAB and cn in prog.funcs and cn != cur:
+            fdecl = prog.funcs[cn]
+            body = [c for c in fdecl["inner"] if c.get("kind") == "CompoundStmt"]
+            stmts = [c for c in (body[0].get("inner", []) if body else []) if isinstance(c, dict)]
+            if len(stmts) == 1 and stmts[0].get("kind") == "ReturnStmt":
+                rex = [c for c in stmts[0].get("inner", []) if isinstance(c, dict)]
+                params = prog.params(cn)
+                args = new["inner"][1:]
+                if rex and len(params) == len(args):
+                    m = {p_.get("id"): a_ for p_, a_ in zip(params, args)}
+                    inner = inline_expr_helpers(subst_refs(rex[0], m), prog, cn, depth + 1)
+                    return {"kind": "ParenExpr", "type": new.get("type"), "_line": new.get("_line"), "_file": new.get("_file"), "inner": [inner]}
+    return new
+
+
+def _is_address_expr(e):
+    """pointer value computed without reading memory: X, &lvalue, X ± n, casts of those"""
+    e = strip(e)
+    k = e.get("kind")
+    if k == "DeclRefExpr":
+        return True
+    if k == "UnaryOperator" and e.get("opcode") == "&":
+        return True
+    if k == "BinaryOperator" and e.get("opcode") in ("+", "-"):
+        return _is_address_expr(e["inner"][0]) and not any(x.get("kind") in ("ArraySubscriptExpr", "MemberExpr", "CallExpr") for x in walk(e["inner"][1]))
+    return False
+
+
+def _written_names(node, values_only=False):
+    """names assigned, incremented, address-taken or passed (by address / as pointer base) as first argument of a call;
+    values_only: only changes of the variable's own value (assignment, ++/--, &v escaping)"""
+    out = set()
+    for x in walk(node):
+        k = x.get("kind")
+        tgt = None
+        direct = False
+        if k in ("BinaryOperator", "CompoundAssignOperator") and (x.get("opcode") == "=" or k == "CompoundAssignOperator"):
+            tgt = strip(x["inner"][0])
+            direct = tgt.get("kind") == "DeclRefExpr"
+        elif k == "UnaryOperator" and x.get("opcode") in ("++", "--", "&"):
+            tgt = strip(x["inner"][0])
+            direct = tgt.get("kind") == "DeclRefExpr"
+        elif k == "CallExpr" and len(x.get("inner", [])) > 1:
+            tgt = strip(x["inner"][1])
+        if values_only and not direct:
+            continue
+        while tgt is not None and tgt.get("kind") in ("ArraySubscriptExpr", "MemberExpr", "UnaryOperator", "ParenExpr", "ImplicitCastExpr", "CStyleCastExpr", "BinaryOperator"):
+            tgt = strip(tgt["inner"][0])
+        if tgt is not None and tgt.get("kind") == "DeclRefExpr":
+            out.add(tgt["referencedDecl"].get("id"))
+    return out
+
+
+def forward_single_defs(body, enums):
+    """A local declared with a call-free initialiser and never written afterwards is replaced by that
+    initialiser in the statements that follow it in its block, provided nothing the initialiser
+    mentions is written there either (`E1 *s = &elems[0]; const int n = lens[i - 1];`): rules then see
+    the same expressions whether or not such a name was introduced."""
+    def rewrite(stmt):
+        if not isinstance(stmt, dict):
+            return stmt
+        if stmt.get("kind") == "CompoundStmt":
+            items = [rewrite(c) for c in stmt.get("inner", []) or []]
+            out = []
+            i = 0
+            while i < len(items):
+                it = items[i]
+                out.append(it)
+                if isinstance(it, dict) and it.get("kind") == "DeclStmt":
+                    for d in it.get("inner", []):
+                        if d.get("kind") != "VarDecl":
+                            continue
+                        init = [c for c in d.get("inner", []) or [] if isinstance(c, dict) and c.get("kind") not in ("FullComment",)]
+                        if not init or strip(init[0]).get("kind") == "InitListExpr" or "[" in d.get("type", {}).get("qualType", ""):
+                            continue
+                        if any(x.get("kind") in ("CallExpr", "UnaryExprOrTypeTraitExpr") and x.get("kind") == "CallExpr" for x in walk(init[0])):
+                            continue
+                        rest = {"kind": "CompoundStmt", "inner": items[i + 1:]}
+                        addr = "*" in d.get("type", {}).get("qualType", "") and _is_address_expr(init[0])
+                        # an address depends only on the values of the names in it, not on what they point to
+                        written = _written_names(rest, values_only=addr)
+                        if d.get("id") in written:
+                            continue
+                        dep = {x["referencedDecl"].get("id") for x in walk(init[0]) if x.get("kind") == "DeclRefExpr" and x["referencedDecl"].get("kind") in ("VarDecl", "ParmVarDecl")}
+                        if dep & written:
+                            continue
+                        items[i + 1:] = subst_refs(items[i + 1:], {d.get("id"): init[0]})
+                i += 1
+            new = dict(stmt)
+            new["inner"] = out[:1] + items[1:] if False else items
+            return new
+        if "inner" in stmt and stmt.get("kind") in ("ForStmt", "WhileStmt", "DoStmt", "IfStmt", "LabelStmt"):
+            new = dict(stmt)
+            new["inner"] = [rewrite(c) if isinstance(c, dict) and c.get("kind") in ("CompoundStmt", "ForStmt", "WhileStmt", "DoStmt", "IfStmt", "LabelStmt") else c for c in stmt["inner"]]
+            return new
+        return stmt
+    return rewrite(body)
 
 
 def const_arrays(body):
@@ -337,6 +463,10 @@ def unroll_plan(s, enums):
         return None
     lo = const_eval(di[0], enums)
     c = strip(cnd)
+    extra = None
+    if c.get("kind") == "BinaryOperator" and c.get("opcode") == "&&":
+        # `i < K && still_ok`: the bound decides the trip count, the rest guards every iteration
+        c, extra = strip(c["inner"][0]), c["inner"][1]
     if lo is None or c.get("kind") != "BinaryOperator" or c.get("opcode") not in ("<", "<="):
         return None
     l = strip(c["inner"][0])
@@ -364,7 +494,7 @@ def unroll_plan(s, enums):
                 tgt = strip(x["inner"][0])
             if tgt is not None and tgt.get("kind") == "DeclRefExpr" and tgt["referencedDecl"].get("id") == d.get("id"):
                 return None
-    return d.get("id"), lo, hi
+    return d.get("id"), lo, hi, extra
 
 
 def subst_var(node, decl_id, value):
@@ -438,11 +568,12 @@ def vars_in(e):
 # ---------------------------------------------------------------- CFG
 
 class Node:
-    __slots__ = ("id", "kind", "expr", "succ", "pred", "line", "stmt", "tag")
+    __slots__ = ("id", "kind", "expr", "succ", "pred", "line", "stmt", "tag", "const_assign")
 
     def __init__(self, i, kind, expr=None, line=None, stmt=None, tag=None):
         self.id, self.kind, self.expr, self.succ, self.pred = i, kind, expr, [], []
         self.line, self.stmt, self.tag = line, stmt, tag
+        self.const_assign = None
 
     def __repr__(self):
         return "<%d %s L%s>" % (self.id, self.kind, self.line)
@@ -464,6 +595,8 @@ class CFG:
         self.exit = self.new("exit")
         self.labels, self.gotos = {}, []
         body = [c for c in fdecl["inner"] if c.get("kind") == "CompoundStmt"][0]
+        body = inline_expr_helpers(body, prog, self.name, 0)
+        body = forward_single_defs(body, prog.enums)
         self.r = R(prog.enums, arrays=const_arrays(body))
         ends = self.stmt(body, [self.entry], None, None)
         self.seq(ends, self.exit)
@@ -522,9 +655,27 @@ class CFG:
         if v is not None:
             # constant condition: only one edge is feasible (compile-time configuration)
             return (preds, []) if v else ([], preds)
+        # jump threading: a predecessor that has just assigned a constant to the tested status variable
+        # (`ret = BAD_ENCODING` of a helper analysed in place, then `if (ret != VALID)`) takes its edge directly
+        t_dir, f_dir, rest = [], [], list(preds)
+        if k == "BinaryOperator" and e.get("opcode") in ("==", "!="):
+            l, r_ = strip(e["inner"][0]), strip(e["inner"][1])
+            kv = const_eval(r_, self.prog.enums)
+            if l.get("kind") == "DeclRefExpr" and kv is not None:
+                vid = l["referencedDecl"].get("id")
+                rest = []
+                for p_ in preds:
+                    ca = getattr(p_, "const_assign", None) if isinstance(p_, Node) else None
+                    if ca is not None and ca[0] == vid:
+                        outcome = (ca[1] == kv) if e["opcode"] == "==" else (ca[1] != kv)
+                        (t_dir if outcome else f_dir).append(p_)
+                    else:
+                        rest.append(p_)
+        if not rest and (t_dir or f_dir):
+            return t_dir, f_dir
         n = self.new("branch", e, e.get("_line"))
-        self.seq(preds, n)
-        return [(n, True)], [(n, False)]
+        self.seq(rest, n)
+        return t_dir + [(n, True)], f_dir + [(n, False)]
 
     def stmt(self, s, preds, brk, cont):
         """returns list of fall-through exits (nodes or pending branch edges)"""
@@ -539,7 +690,19 @@ class CFG:
             for d in s.get("inner", []):
                 if d.get("kind") == "VarDecl":
                     init = [c for c in d.get("inner", []) or [] if isinstance(c, dict) and c.get("kind") not in ("FullComment",)]
+                    body = self.inline_body(init[0]) if init else None
+                    if body is not None:
+                        # `T v = helper(args);` with a helper the rules do not know: declaration, then the body in place
+                        n = self.new("decl", None, d.get("_line") or s.get("_line"), d, tag=d["name"])
+                        cur = self.seq(cur, n)
+                        ref = {"kind": "DeclRefExpr", "type": d.get("type"), "referencedDecl": {"id": d.get("id"), "kind": "VarDecl", "name": d["name"], "type": d.get("type")}, "_line": d.get("_line"), "_file": d.get("_file")}
+                        cur = self.run_inlined(body, ref, cur, brk, cont)
+                        continue
                     n = self.new("decl", init[0] if init else None, d.get("_line") or s.get("_line"), d, tag=d["name"])
+                    if init and "[" not in d.get("type", {}).get("qualType", "") and "*" not in d.get("type", {}).get("qualType", ""):
+                        cv = const_eval(init[0], self.prog.enums)
+                        if cv is not None:
+                            n.const_assign = (d.get("id"), cv, init[0])
                     cur = self.seq(cur, n)
             return cur
         if k == "IfStmt":
@@ -555,11 +718,16 @@ class CFG:
             if un is not None:
                 # `for (int i = a; i < K; i++)` with constant a, K and at most 4 iterations whose body neither
                 # writes i nor leaves the loop: analysed as K-a copies of the body with i replaced by its value
-                decl_id, lo, hi = un
+                decl_id, lo, hi, extra = un
                 cur = preds
+                out_exits = []
                 for v in range(lo, hi):
+                    if extra is not None:
+                        t, f = self.cond(subst_var(extra, decl_id, v), cur)
+                        out_exits += f
+                        cur = t
                     cur = self.stmt(subst_var(body, decl_id, v), cur, brk, cont)
-                return cur
+                return out_exits + cur
             cur = preds
             if init and init.get("kind"):
                 cur = self.stmt(init, cur, brk, cont)
@@ -604,6 +772,20 @@ class CFG:
             for l in t:
                 self._link_branch(l[0], l[1], head) if isinstance(l, tuple) else self.link(l, head)
             return f + brk_list
+        if k == "ReturnStmt" and getattr(self, "_inl_stack", None):
+            # return of a helper being analysed in place: `target = value`, then on to what follows the call
+            tgt, exits = self._inl_stack[-1]
+            inner = [c for c in s.get("inner", []) or [] if isinstance(c, dict)]
+            cur = preds
+            if inner and tgt is not None:
+                asg = {"kind": "BinaryOperator", "opcode": "=", "type": tgt.get("type"), "_line": s.get("_line"), "_file": s.get("_file"), "inner": [tgt, inner[0]]}
+                n = self.new("stmt", asg, s.get("_line"), asg)
+                cv = const_eval(inner[0], self.prog.enums)
+                if cv is not None and strip(tgt).get("kind") == "DeclRefExpr":
+                    n.const_assign = (strip(tgt)["referencedDecl"].get("id"), cv, inner[0])   # for jump threading in cond()
+                cur = self.seq(preds, n)
+            exits.extend(cur)
+            return []
         if k == "ReturnStmt":
             inner = [c for c in s.get("inner", []) or [] if isinstance(c, dict)]
             if inner:
@@ -621,6 +803,19 @@ class CFG:
                         self.seq(exits, n)
                         self.link(n, self.exit)
                     return []
+            top = strip(inner[0]) if inner else None
+            if top is not None and top.get("kind") == "DeclRefExpr" and top["referencedDecl"].get("kind") == "VarDecl" and len(preds) > 1:
+                # `return status;` reached from several places: one return node per way in, so that each keeps
+                # the facts of its own path (single-exit style is judged like early returns)
+                for p_ in preds:
+                    ca = getattr(p_, "const_assign", None) if isinstance(p_, Node) else None
+                    ex = inner[0]
+                    if ca is not None and ca[0] == top["referencedDecl"].get("id") and len(ca) > 2:
+                        ex = ca[2]   # the constant just assigned
+                    n = self.new("ret", ex, s.get("_line"), s)
+                    self.seq([p_], n)
+                    self.link(n, self.exit)
+                return []
             n = self.new("ret", inner[0] if inner else None, s.get("_line"), s)
             self.seq(preds, n)
             self.link(n, self.exit)
@@ -653,6 +848,17 @@ class CFG:
         if k in ("SwitchStmt", "CaseStmt", "DefaultStmt", "IndirectGotoStmt", "GCCAsmStmt"):
             raise Unsupported(k)
         # expression statement
+        es = strip(s) if s.get("kind") in TRANSPARENT else s
+        if es.get("kind") == "BinaryOperator" and es.get("opcode") == "=":
+            body = self.inline_body(es["inner"][1])
+            if body is not None:
+                return self.run_inlined(body, es["inner"][0], preds, brk, cont)
+        if es.get("kind") == "BinaryOperator" and es.get("opcode") == "=" and strip(es["inner"][0]).get("kind") == "DeclRefExpr":
+            cv = const_eval(es["inner"][1], self.prog.enums)
+            if cv is not None:
+                n = self.new("stmt", s, s.get("_line"), s)
+                n.const_assign = (strip(es["inner"][0])["referencedDecl"].get("id"), cv, es["inner"][1])
+                return self.seq(preds, n)
         inl = self.inline_plan(s)
         if inl is not None:
             # call of a void helper the rules do not know (not in CVOCAB): analysed as if its body stood here,
@@ -660,6 +866,39 @@ class CFG:
             return self.stmt(inl, preds, brk, cont)
         n = self.new("stmt", s, s.get("_line"), s)
         return self.seq(preds, n)
+
+    def inline_body(self, e):
+        """body of a value-returning helper not in CVOCAB called by expression e, parameters substituted; else None"""
+        e = strip(e)
+        if e.get("kind") != "CallExpr":
+            return None
+        try:
+            from cvocab import CVOCAB
+        except Exception:
+            return None
+        cn = callee_name(e)
+        if cn is None or cn in CVOCAB or cn not in self.prog.funcs or cn == self.name or len(getattr(self, "_inl_stack", [])) > 1:
+            return None
+        fdecl = self.prog.funcs[cn]
+        body = [c for c in fdecl["inner"] if c.get("kind") == "CompoundStmt"]
+        if not body or any(x.get("kind") in ("GotoStmt", "LabelStmt") for x in walk(body[0])):
+            return None
+        params = self.prog.params(cn)
+        args = e["inner"][1:]
+        if len(params) != len(args):
+            return None
+        return subst_refs(body[0], {p_.get("id"): a_ for p_, a_ in zip(params, args)})
+
+    def run_inlined(self, body, target, preds, brk, cont):
+        if not hasattr(self, "_inl_stack"):
+            self._inl_stack = []
+        exits = []
+        self._inl_stack.append((target, exits))
+        try:
+            fall = self.stmt(body, preds, None, None)
+        finally:
+            self._inl_stack.pop()
+        return exits + fall
 
     def inline_plan(self, s):
         e = strip(s) if s.get("kind") in TRANSPARENT else s
@@ -785,7 +1024,190 @@ class CFG:
             return False
         return to.id in self.reach_from(x, avoid=br)
 
-    def facts_at(self, n):
+    def facts_at(self, n, _depth=0):
+        base = self._facts_at(n)
+        if _depth > 1:
+            return base
+        # status-variable correlation: on the edge `v == K` only those assignments `v = …` that can have
+        # produced K were executed last; what held at all of them holds here (a helper analysed in place
+        # leaves `ret = BAD_ENCODING | … | VALID` followed by `if (ret != VALID) return ret;`)
+        have = {f for f, _ in base}
+        extra = []
+        # joins: only the predecessors compatible with what holds here were taken; what held on all of them holds here
+        for j in self.joins_before(n):
+            feas = self.feasible_preds(j, n, have, _depth)
+            if not feas or len(feas) == len([p_ for p_ in j.pred if p_ is not None]):
+                continue
+            common = None
+            for p_ in feas:
+                fs = self.edge_facts(p_, j, _depth + 1)
+                common = fs if common is None else (common & fs)
+            for x in sorted(common or []):
+                if x in have:
+                    continue
+                ids = set(re.findall(r"[A-Za-z_]\w*", x))
+                if any(o.kind in ("stmt", "decl") and (self.writes(o) & ids) and (o is j or self.between_nodes(j, o, n)) for o in self.nodes):
+                    continue
+                have.add(x)
+                extra.append((x, j))
+        for f, br in base:
+            m = re.fullmatch(r"(\w+) == (\w+)", f)
+            if not m:
+                continue
+            v, ktok = m.group(1), m.group(2)
+            kval = self.prog.enums.get(ktok)
+            if kval is None and re.fullmatch(r"-?\d+", ktok):
+                kval = int(ktok)
+            if kval is None:
+                continue
+            defs = [x for x in self.nodes if x.kind in ("stmt", "decl") and v in self.writes(x)]
+            reach = [d for d in defs if self._def_reaches(d, br, defs)]
+            if len(reach) < 2:
+                continue
+            feas = []
+            for d in reach:
+                rhs = self.rhs_of(d, v)
+                if rhs is None:
+                    feas = None
+                    break
+                cv = const_eval(rhs, self.prog.enums)
+                if cv is None or cv == kval:
+                    feas.append((d, rhs, cv))
+            if not feas:
+                continue
+            # an assignment is not the last one executed if something that held there contradicts what holds here
+            def neg(fact):
+                for op, nop in ((" == ", " != "), (" != ", " == "), (" >= ", " < "), (" < ", " >= "), (" <= ", " > "), (" > ", " <= ")):
+                    i = fact.rfind(op)
+                    if i > 0:
+                        return fact[:i] + nop + fact[i + len(op):]
+                return None
+            keep = []
+            for d, rhs, cv in feas:
+                contradicted = False
+                for x, _ in self.facts_at(d, _depth + 1):
+                    nx = neg(x)
+                    if nx is not None and nx in have:
+                        ids = set(re.findall(r"[A-Za-z_]\w*", x))
+                        if not any(o.kind in ("stmt", "decl") and o is not d and (self.writes(o) & ids) and self.between_nodes(d, o, n) for o in self.nodes):
+                            contradicted = True
+                if not contradicted:
+                    keep.append((d, rhs, cv))
+            feas = keep
+            if not feas:
+                continue
+            common = None
+            for d, rhs, cv in feas:
+                fs = {x for x, _ in self.facts_at(d, _depth + 1)}
+                if cv is None:
+                    fs.add("%s == %s" % (self.r(rhs), ktok))
+                common = fs if common is None else (common & fs)
+            for x in sorted(common or []):
+                if x in have:
+                    continue
+                # nothing the fact mentions is written between the assignments and n
+                ids = set(re.findall(r"[A-Za-z_]\w*", x))
+                killed = False
+                for d, _, _ in feas:
+                    for o in self.nodes:
+                        if o.kind in ("stmt", "decl") and o is not d and (self.writes(o) & ids) and self.between_nodes(d, o, n):
+                            killed = True
+                if not killed:
+                    have.add(x)
+                    extra.append((x, br))
+        return base + extra
+
+    @staticmethod
+    def _neg(fact):
+        for op, nop in ((" == ", " != "), (" != ", " == "), (" >= ", " < "), (" < ", " >= "), (" <= ", " > "), (" > ", " <= ")):
+            i = fact.rfind(op)
+            if i > 0:
+                return fact[:i] + nop + fact[i + len(op):]
+        return None
+
+    def edge_facts(self, pred, succ, depth):
+        """facts holding when control goes from pred to succ"""
+        fs = {x for x, _ in self.facts_at(pred, depth)}
+        if pred.kind == "branch" and len(pred.succ) == 2 and pred.succ[0] is not pred.succ[1]:
+            pol = pred.succ[0] is succ
+            fs.add(self.norm(pred.expr, pol))
+        return fs
+
+    def feasible_preds(self, j, n, have, depth=0):
+        """predecessors of join node j through which n can be reached given the facts `have` holding at n:
+        a predecessor is excluded when something that held on its edge is the negation of a fact at n and
+        nothing it mentions is written between j and n"""
+        out = []
+        for p_ in j.pred:
+            if p_ is None:
+                continue
+            bad = False
+            for x in self.edge_facts(p_, j, depth + 1):
+                nx = self._neg(x)
+                if nx is not None and nx in have:
+                    ids = set(re.findall(r"[A-Za-z_]\w*", x))
+                    if not any(o.kind in ("stmt", "decl") and (self.writes(o) & ids) and (o is j or self.between_nodes(j, o, n)) for o in self.nodes):
+                        bad = True
+                        break
+            if not bad:
+                out.append(p_)
+        return out
+
+    def joins_before(self, n):
+        """join nodes (several predecessors, not loop heads) that dominate n, outermost first"""
+        js = [j for j in self.nodes if len([p_ for p_ in j.pred if p_ is not None]) >= 2 and j.kind != "loophead" and j is not n and self.dominates(j, n)
+              and not any(j.id in self.reach_from(p_) and self.dominates(j, p_) for p_ in j.pred if p_ is not None)]
+        return js
+
+    def valid_accept_facts(self, n):
+        """facts at return node n under the assumption that it returns VALID; None when it cannot.
+        `return VALID` as is; `return v` with v a status local: excluded when v != VALID holds or its only
+        reaching definition is another constant, the definition `v = f(...)` contributes `f(...) == VALID`."""
+        if n.kind != "ret" or n.expr is None:
+            return None
+        txt = self.r(n.expr)
+        facts = set(self.resolved_facts(n))
+        if txt == "VALID":
+            return sorted(facts)
+        e = strip(n.expr)
+        if not (e.get("kind") == "DeclRefExpr" and e["referencedDecl"].get("kind") == "VarDecl"):
+            return None
+        v = txt
+        if "%s != VALID" % v in facts:
+            return None
+        if "%s == VALID" % v in facts:
+            return sorted(facts)
+        defs = [x for x in self.nodes if x.kind in ("stmt", "decl") and v in self.writes(x)]
+        reach = [d for d in defs if self._def_reaches(d, n, defs)]
+        if len(reach) != 1:
+            return None
+        rhs = self.rhs_of(reach[0], v)
+        if rhs is None:
+            return None
+        cv = const_eval(rhs, self.prog.enums)
+        if cv is not None:
+            return sorted(facts) if cv == self.prog.enums.get("VALID") else None
+        add = {"%s == VALID" % self.r(rhs)}
+        add |= {x for x, _ in self.facts_at(reach[0])}
+        return sorted(facts | add | self.expand_summaries(add))
+
+    def _def_reaches(self, d, target, defs):
+        """is there a path from definition d to target that passes no other definition of the variable?"""
+        other = {o.id for o in defs if o is not d}
+        seen, st = set(), [x for x in d.succ if x is not None]
+        while st:
+            x = st.pop()
+            if x.id in seen:
+                continue
+            seen.add(x.id)
+            if x is target:
+                return True
+            if x.id in other or x is d:
+                continue
+            st.extend(y for y in x.succ if y is not None)
+        return False
+
+    def _facts_at(self, n):
         """[(fact string, branch node)] for atomic branch conditions that hold on every path to n.
         A fact mentioning a local that is overwritten between the branch and n is replaced by the
         version in which that local is substituted by its unique reaching definition at the branch
